@@ -572,7 +572,7 @@ class LoaderBase(ABC):
         rotator = Rotation.from_quat(local_rot)
         mole_aligned = self.molecules.linear_transform(local_shifts, rotator)
 
-        if remainder > 1:
+        if remainder > 0:
             labels %= remainder  # type: ignore
         labels = labels.astype(np.uint8)
 
